@@ -36,8 +36,10 @@ def _ftypes():
     return {'e': PPEnumFieldType({0: 'Zero', 1: ('One', 'name_good'), 10: 'Ten'})}
 
 
-def _mk(fmt, nrec):
+def _mk(fmt, nrec, limits=None):
     from ak.ppobj import PPTable
+    if limits is not None:
+        return PPTable(RECORDS[:nrec], fmt=fmt, fields=FIELDS, fields_types=_ftypes(), limits=limits)
     return PPTable(RECORDS[:nrec], fmt=fmt, fields=FIELDS, fields_types=_ftypes())
 
 
@@ -105,8 +107,12 @@ def replay_history(job):
             if op == 'construct':
                 cols, limits = st['cols'], st['limits']
                 fmt = ','.join(col_str(c) for c in cols)
-                fmt += ';' + lim_str(limits)
-                t = _mk(fmt, nrec)
+                if (limits[0] < 0) != (limits[1] < 0):
+                    # half-open pair: only the constructor argument can express it
+                    t = _mk(fmt, nrec, limits=tuple(None if x < 0 else x for x in limits))
+                else:
+                    fmt += ';' + lim_str(limits)
+                    t = _mk(fmt, nrec)
             elif op == 'print':
                 _render(t)
                 frozen = True
@@ -142,7 +148,7 @@ def replay_history(job):
             got = parse_shape(str(t.fmt))
             want = {'cols': [dict(c, annot=(frozen and c['min'] != c['max'])) for c in cols],
                     'limits': ({'k': 'omitted', 'n': 0, 'm': 0} if skipped == 'no' else
-                               ({'k': 'star', 'n': 0, 'm': 0} if limits[0] < 0 else {'k': 'nm', 'n': limits[0], 'm': limits[1]}))}
+                               ({'k': 'star', 'n': 0, 'm': 0} if min(limits) < 0 else {'k': 'nm', 'n': limits[0], 'm': limits[1]}))}
             if got != want:
                 drift = '%s: str(table.fmt) = %r, I-spec shape %s' % (where, str(t.fmt), want)
     return None, drift, []
